@@ -81,6 +81,7 @@ use syn::visit::Visit;
 pub const TARGETS: &[Target] = &[
     ("glueloops", "GlueLoops", glueloops as Gen),
     ("listown", "ListOwn", listown as Gen),
+    ("mirlower", "MirLower", mirlower as Gen),
 ];
 
 fn norm<T: ToTokens>(t: &T) -> String {
@@ -951,5 +952,224 @@ fn listown(repo: &Path) -> Result<String, String> {
         doc.push(format!("List.{m} → {callee}"));
     }
     out.push_str(&format!("/-- the function each script-visible list method hands its `DynVal` argument to: {} -/\ndef entries : List Nat := [{}]\n\nend RotoV.Gen.ListOwn\n", doc.join(", "), idx.join(", ")));
+    Ok(out)
+}
+
+
+// ---------------------------------------------------------------------------------------------
+// mirlower → Generated/MirLower.lean: the ownership-relevant decisions of the MIR → LIR lowering
+// of a block (src/lir/lower.rs), as values of `RotoV.MirLower`:
+//
+// `Lowerer::block`, statement by statement (`BlockStep`):
+//   self.blocks.push(Block { label: block.label, instructions: Vec::new() });      newBlock
+//   for <i> in block.instructions { self.instruction(<i>) }                       forEach [.lower]
+// `Lowerer::instruction`: the arms of `match instruction` as (IKind, LowerFn): the body of an arm
+//   must be exactly one call `self.<method>(<the fields its pattern binds, in order>)`.
+// `Lowerer::assign`: `let to = self.location(to, ty);`, then the arms of `let op = match value`
+//   as (VKind, AssignAct):
+//   { let from = self.location(place, ty); if let (Some(to), Some(from)) = (to, from)
+//     { self.call_clone_of(to, from, ty); } return; }                              cloneOf .place
+//   { …address of the constant / offset into the context…; if let Some(to) = to
+//     { self.call_clone_of(to, <that location>, ty); } return; }                   cloneOf .global
+//   any arm whose text mentions no clone / drop call and no `return` other than the
+//   `let Some(op) = … else { return; }` of a value without a representation        operand
+//   and finally `if let Some(to) = to { self.move_val(to, op, ty); }`.
+// `Lowerer::drop`, statement by statement (`DropStep`): locOrReturn, dropAtPointer.
+// `move_val`, `r#return`, `switch`, `set_discriminant`, `get_discriminant`, `location` must not
+// mention a clone / drop call at all. Hook statements are skipped; anything else is an
+// extraction failure.
+
+const OWN_WORDS: [&str; 8] = ["call_clone_of", "call_clone_function", "call_drop_of", "emit_clone", "Instruction::Drop", "Instruction::Clone", "::generated::", "drop_fn"];
+
+fn lowerer_fn(file: &syn::File, name: &str) -> Result<find::FnBody, String> {
+    find::func(file, name, Some("Lowerer")).map_err(|e| format!("src/lir/lower.rs: {e}"))
+}
+
+fn mentions_ownership(s: &str) -> Option<&'static str> {
+    OWN_WORDS.iter().copied().find(|w| s.contains(w))
+}
+
+fn pat_fields(p: &syn::Pat) -> Result<(String, Vec<String>), String> {
+    match p {
+        syn::Pat::Struct(s) => {
+            let mut names = vec![];
+            for f in &s.fields {
+                let m = norm(&f.member);
+                if norm(&f.pat) != m {
+                    return Err(format!("field `{m}` bound under another name"));
+                }
+                names.push(m);
+            }
+            if s.rest.is_some() {
+                return Err("pattern with `..`".into());
+            }
+            Ok((s.path.segments.last().map(|x| x.ident.to_string()).unwrap_or_default(), names))
+        }
+        syn::Pat::TupleStruct(s) => Ok((
+            s.path.segments.last().map(|x| x.ident.to_string()).unwrap_or_default(),
+            s.elems.iter().map(norm).collect(),
+        )),
+        o => Err(format!("unexpected pattern `{}`", norm(o))),
+    }
+}
+
+fn mirlower(repo: &Path) -> Result<String, String> {
+    let file = find::parse(repo, "src/lir/lower.rs")?;
+    // --- block
+    let f = lowerer_fn(&file, "block")?;
+    let mut block = vec![];
+    for st in f.block.stmts.iter().filter(|s| !is_hook(s)) {
+        let s = norm(st);
+        if s == "self.blocks.push(Block{label:block.label,instructions:Vec::new(),});" {
+            block.push(".newBlock".to_string());
+            continue;
+        }
+        if let syn::Stmt::Expr(syn::Expr::ForLoop(l), _) = st {
+            let v = norm(&l.pat);
+            let it = norm(&l.expr);
+            if it != "block.instructions" && it != "block.instructions.into_iter()" {
+                return Err(format!("Lowerer::block: loop over `{it}` instead of the block's instructions"));
+            }
+            let mut body = vec![];
+            for b in l.body.stmts.iter().filter(|s| !is_hook(s)) {
+                let t = norm(b);
+                if t == format!("self.instruction({v})") || t == format!("self.instruction({v});") {
+                    body.push(".lower".to_string());
+                } else {
+                    return Err(format!("Lowerer::block: statement in the instruction loop outside the translated subset: `{t}`"));
+                }
+            }
+            block.push(format!(".forEach [{}]", body.join(", ")));
+            continue;
+        }
+        return Err(format!("Lowerer::block: statement outside the translated subset (every MIR instruction must be lowered on its own, in order): `{}`", s.chars().take(160).collect::<String>()));
+    }
+    // --- instruction
+    let f = lowerer_fn(&file, "instruction")?;
+    let ms = find::matches_on(&f.block, "instruction");
+    if ms.len() != 1 || f.block.stmts.len() != 1 {
+        return Err("Lowerer::instruction: expected exactly `match instruction { … }`".into());
+    }
+    let mut instr = vec![];
+    for a in &ms[0].arms {
+        if a.guard.is_some() {
+            return Err("Lowerer::instruction: guarded arm".into());
+        }
+        let (variant, fields) = pat_fields(&a.pat).map_err(|e| format!("Lowerer::instruction: {e}"))?;
+        let ik = match variant.as_str() {
+            "Assign" => ".assign",
+            "Jump" => ".jump",
+            "Switch" => ".switch",
+            "SetDiscriminant" => ".setDisc",
+            "Return" => ".ret",
+            "Drop" => ".drop",
+            o => return Err(format!("Lowerer::instruction: unknown MIR instruction `{o}`")),
+        };
+        let b = norm(&a.body);
+        let b = b.trim_start_matches('{').trim_end_matches('}').trim_end_matches(';');
+        let args = fields.join(",");
+        let lf = [("assign", ".assign"), ("emit_jump", ".emitJump"), ("switch", ".switch"), ("set_discriminant", ".setDisc"), ("r#return", ".ret"), ("drop", ".drop")]
+            .iter()
+            .find(|(m, _)| b == format!("self.{m}({args})"))
+            .map(|x| x.1)
+            .ok_or(format!("Lowerer::instruction: arm of `{variant}` is not a single call of a lowering method with the bound fields in order: `{b}`"))?;
+        instr.push(format!("({ik}, {lf})"));
+    }
+    // --- assign
+    let f = lowerer_fn(&file, "assign")?;
+    let stmts: Vec<&syn::Stmt> = f.block.stmts.iter().filter(|s| !is_hook(s)).collect();
+    if stmts.len() != 3
+        || norm(stmts[0]) != "letto=self.location(to,ty);"
+        || !norm(stmts[1]).starts_with("letop=matchvalue{")
+        || norm(stmts[2]) != "ifletSome(to)=to{self.move_val(to,op,ty);}"
+    {
+        return Err("Lowerer::assign: expected `let to = self.location(to, ty); let op = match value { … }; if let Some(to) = to { self.move_val(to, op, ty); }`".into());
+    }
+    let ms = find::matches_on(&f.block, "value");
+    if ms.len() != 1 {
+        return Err("Lowerer::assign: expected one `match value`".into());
+    }
+    let mut assign = vec![];
+    for a in &ms[0].arms {
+        if a.guard.is_some() {
+            return Err("Lowerer::assign: guarded arm".into());
+        }
+        let variant = match &a.pat {
+            syn::Pat::Struct(s) => s.path.segments.last().map(|x| x.ident.to_string()),
+            syn::Pat::TupleStruct(s) => s.path.segments.last().map(|x| x.ident.to_string()),
+            _ => None,
+        }
+        .ok_or(format!("Lowerer::assign: unexpected pattern `{}`", norm(&a.pat)))?;
+        let vk = match variant.as_str() {
+            "Const" => ".const",
+            "Constant" => ".constant",
+            "Context" => ".context",
+            "Discriminant" => ".disc",
+            "Not" => ".not",
+            "Negate" => ".negate",
+            "Move" => ".move",
+            "Clone" => ".clone",
+            "BinOp" => ".binop",
+            "Call" => ".call",
+            "CallRuntime" => ".callRuntime",
+            o => return Err(format!("Lowerer::assign: unknown MIR value `{o}`")),
+        };
+        let b = norm(&a.body);
+        let act = if variant == "Clone" {
+            if norm(&a.pat) != "mir::Value::Clone(place)"
+                || b != "{letfrom=self.location(place,ty);iflet(Some(to),Some(from))=(to,from){self.call_clone_of(to,from,ty);}return;}"
+            {
+                return Err(format!("Lowerer::assign: the Clone arm is outside the translated subset: `{b}`"));
+            }
+            ".cloneOf .place"
+        } else if variant == "Constant" || variant == "Context" {
+            let tail_const = "ifletSome(to)=to{self.call_clone_of(to,Location::Pointer{base:ptr_var,offset:0,},ty,);}return;}";
+            let tail_ctx = "ifletSome(to)=to{self.call_clone_of(to,from,ty);}return;}";
+            let head = b.strip_suffix(tail_const).or_else(|| b.strip_suffix(tail_ctx));
+            match head {
+                Some(h) if mentions_ownership(h).is_none() && !h.contains("return") => ".cloneOf .global",
+                _ => return Err(format!("Lowerer::assign: the {variant} arm is outside the translated subset: `{b}`")),
+            }
+        } else {
+            if let Some(w) = mentions_ownership(&b) {
+                return Err(format!("Lowerer::assign: the {variant} arm mentions `{w}`: outside the translated subset"));
+            }
+            let without_else = b.replace("else{return;};", "");
+            if without_else.contains("return") {
+                return Err(format!("Lowerer::assign: the {variant} arm returns early: `{b}`"));
+            }
+            ".operand"
+        };
+        assign.push(format!("({vk}, {act})"));
+    }
+    // --- drop
+    let f = lowerer_fn(&file, "drop")?;
+    let mut drop = vec![];
+    for st in f.block.stmts.iter().filter(|s| !is_hook(s)) {
+        let s = norm(st);
+        if s == "letSome(var)=self.location(val,ty)else{return;};" {
+            drop.push(".locOrReturn");
+        } else if s == "matchvar{Location::Var(_var)=>{}Location::Pointer{base,offset}=>{letop=self.offset(base,offsetasu32);self.call_drop_of(op.into(),ty);}};" {
+            drop.push(".dropAtPointer");
+        } else if matches!(st, syn::Stmt::Macro(_)) || s.starts_with("//") {
+            continue;
+        } else {
+            return Err(format!("Lowerer::drop: statement outside the translated subset: `{s}`"));
+        }
+    }
+    // --- the rest of what a block's lowering runs calls no clone / drop function
+    for name in ["move_val", "r#return", "switch", "set_discriminant", "get_discriminant", "location", "get_field"] {
+        let f = lowerer_fn(&file, name.trim_start_matches("r#")).or_else(|_| lowerer_fn(&file, name))?;
+        if let Some(w) = mentions_ownership(&norm(&f.block)) {
+            return Err(format!("Lowerer::{name} mentions `{w}`: a clone / drop call outside `assign` / `drop`"));
+        }
+    }
+    let mut out = String::new();
+    out.push_str("/- GENERATED by /verif/extract from src/lir/lower.rs (Lowerer::block / instruction / assign / drop: the ownership-relevant decisions of the MIR → LIR lowering) — do not edit. -/\nimport RotoV.Model.MirLower\nnamespace RotoV.Gen.MirLower\nopen RotoV.MirLower\n\n");
+    out.push_str(&format!("/-- `Lowerer::block`, statement by statement -/\ndef block : List BlockStep := [{}]\n\n", block.join(", ")));
+    out.push_str(&format!("/-- `Lowerer::instruction`: the arms of `match instruction` -/\ndef instr : List (IKind × LowerFn) := [{}]\n\n", instr.join(", ")));
+    out.push_str(&format!("/-- `Lowerer::assign`: the arms of `let op = match value` -/\ndef assign : List (VKind × AssignAct) := [{}]\n\n", assign.join(", ")));
+    out.push_str(&format!("/-- `Lowerer::drop`, statement by statement -/\ndef drop : List DropStep := [{}]\n\n", drop.join(", ")));
+    out.push_str("/-- the lowering as the current source has it -/\ndef lowering : Lowering := { block := block, instr := instr, assign := assign, drop := drop }\n\nend RotoV.Gen.MirLower\n");
     Ok(out)
 }
